@@ -182,11 +182,13 @@ def check_lookup_totality(ctx, only: Optional[Set[str]] = None, floor: int = 6) 
             ctx.analysed(m)
             defs = D.definitions(f)
             for node in walk_local(f):
-                if not (isinstance(node, ast.Subscript) and isinstance(node.ctx, ast.Load)):
+                if not (isinstance(node, ast.Subscript) and isinstance(node.ctx, (ast.Load, ast.Store))):
                     continue
                 if not is_self_attr(node.value) or node.value.attr not in STORAGE:
                     continue
                 attr = node.value.attr
+                if isinstance(node.ctx, ast.Store) and kinds[attr] != "list":
+                    continue        # a dict takes any key; a list position must exist (and must be the one that is meant)
                 n_sites += 1
                 idx = node.slice
                 idx_txt = norm(idx)
